@@ -1,10 +1,13 @@
 //go:build verif
 
 // Harness for C15: runs identical op sequences on db/memory, db/pebble (v1), db/pebblev2 and on
-// the Lean models (`Mem` = transcription of db/memory, `Peb` = transcription of the Pebble wrappers,
-// `Spec` = the contract). The property oracle compares the real backends with each other and does
-// not need the Lean driver; the driver adds the correspondence of each backend with its
-// transcription and the attribution of known findings (run.go).
+// the Lean models (`Mem` = transcription of db/memory — the variant of its batch.DeleteRange is probed —,
+// `Peb` = transcription of the Pebble wrappers, `Spec` = the contract; db.BufferBatch as a layer over
+// each). The property oracle compares the real backends with each other — every answer, and the content
+// of the store after every op that may change it —, wrapped batches with the batch they wrap, and the
+// pebble backends with db/memory across a simulated power loss; it does not need the Lean driver. The
+// driver adds the correspondence of each backend with its transcription and the attribution of known
+// findings (run.go).
 package main
 
 import (
@@ -38,7 +41,10 @@ func hitOps(res *lib.Result, ops []Op) {
 			k += ":" + o.Src
 		}
 		res.Hit("op:" + k)
-		if o.K == "iter" || o.K == "scan" {
+		if o.K == "newbatch" && o.Wrap != "" && o.Idx {
+			res.Hit("newbatch:wrapped-in-" + o.Wrap)
+		}
+		if o.K == "iter" || o.K == "scan" || o.K == "psize" {
 			switch {
 			case o.U && len(o.Key) == 0:
 				res.Hit("bounds:empty-prefix+ub")
@@ -387,6 +393,142 @@ func reentrantSequences() [][]Op {
 	return seqs
 }
 
+// bufferSequences: db.BufferBatch (db/bufferbatch.go) — Flush alone, twice, interleaved with further
+// calls; reads through the map and through the wrapped batch; use after Write (Put panics: nil map; Get
+// falls through to the closed batch); Write on a closed store, then again; the four panicking methods;
+// a plain batch asked to Flush. Compared with the layered model of ModelBuf.lean and backend vs backend.
+func bufferSequences() [][]Op {
+	pre := []Op{{K: "put", Key: k(0x01), Val: k(1)}, {K: "put", Key: k(0x02), Val: k(2)}, {K: "put", Key: k(0x03), Val: nil}}
+	with := func(more ...Op) []Op { return append(append([]Op{}, pre...), more...) }
+	nb := Op{K: "newbatch", Idx: true, Wrap: "buffer"}
+	return [][]Op{
+		withEnding(with(nb, Op{K: "bput", Key: k(0x05), Val: k(5)}, Op{K: "bdel", Key: k(0x01)}, Op{K: "bput", Key: k(0x02), Val: nil, NilB: true},
+			Op{K: "get", Src: "b0", Key: k(0x05)}, Op{K: "get", Src: "b0", Key: k(0x01)}, Op{K: "get", Src: "b0", Key: k(0x02)}, Op{K: "get", Src: "b0", Key: k(0x03)},
+			Op{K: "get", Src: "b0", Key: k(0x09)}, Op{K: "bflush"}, Op{K: "scan", Src: "db"}, Op{K: "get", Src: "b0", Key: k(0x01)},
+			Op{K: "bdel", Key: k(0x05)}, Op{K: "bput", Key: k(0x01), Val: k(7)}, Op{K: "bflush"}, Op{K: "bflush"},
+			Op{K: "get", Src: "b0", Key: k(0x05), Fail: true}, Op{K: "get", Src: "b0", Key: k(0x01), Fail: true}, Op{K: "bwrite"}, Op{K: "scan", Src: "db"})),
+		withEnding(with(nb, Op{K: "bput", Key: k(0x05), Val: k(5)}, Op{K: "bwrite"}, Op{K: "bput", Key: k(0x06), Val: k(6)}, Op{K: "bdel", Key: k(0x06)},
+			Op{K: "get", Src: "b0", Key: k(0x05)}, Op{K: "bflush"}, Op{K: "bwrite"}, Op{K: "bclose"}, Op{K: "scan", Src: "db"})),
+		withEnding(with(nb, Op{K: "bput", Key: k(0x05), Val: k(5)}, Op{K: "bsize"}, Op{K: "has", Src: "b0", Key: k(0x05)}, Op{K: "scan", Src: "b0"},
+			Op{K: "bdelrange", Key: nil, End: k(0xff)}, Op{K: "rscan", Src: "b0", Key2: k(0xff)}, Op{K: "bwrite"}, Op{K: "scan", Src: "db"},
+			Op{K: "newbatch", Idx: true}, Op{K: "bflush", H: 1}, Op{K: "bflush", H: 7}, Op{K: "bclose", H: 1})),
+		with(nb, Op{K: "bput", Key: k(0x05), Val: k(5)}, Op{K: "bclose"}, Op{K: "bput", Key: k(0x06), Val: k(6)}, Op{K: "get", Src: "b0", Key: k(0x05)},
+			Op{K: "get", Src: "b0", Key: k(0x01)}, Op{K: "bflush"}, Op{K: "bwrite"}, Op{K: "bput", Key: k(0x07), Val: k(7)}, Op{K: "scan", Src: "db"}),
+		with(nb, Op{K: "bput", Key: k(0x05), Val: k(5)}, Op{K: "close"}, Op{K: "bput", Key: k(0x06), Val: k(6)}, Op{K: "bflush"}, Op{K: "bwrite"},
+			Op{K: "bput", Key: k(0x07), Val: k(7)}, Op{K: "bwrite"}, Op{K: "psize", Key: nil}),
+		// two buffers over one store: the second is written first
+		withEnding(with(nb, nb, Op{K: "bput", H: 0, Key: k(0x02), Val: k(0xa0)}, Op{K: "bdel", H: 1, Key: k(0x02)}, Op{K: "bput", H: 1, Key: k(0x04), Val: k(4)},
+			Op{K: "bflush", H: 1}, Op{K: "get", Src: "b0", Key: k(0x04)}, Op{K: "bwrite", H: 1}, Op{K: "get", Src: "b0", Key: k(0x04)},
+			Op{K: "get", Src: "b0", Key: k(0x02)}, Op{K: "psize", Key: nil}, Op{K: "bwrite", H: 0}, Op{K: "psize", Key: k(0x02), U: true}, Op{K: "scan", Src: "db"})),
+	}
+}
+
+// batchLogSequences: EVERY batch log of `depth` calls over six calls (put / delete of two keys, two
+// overlapping range deletes) x four store contents x {Update (indexed: the log is also read back through
+// the batch), Write (plain batch)}: the helper applies the log, the store content is compared after it
+// (probe), then the store is reset. "Later operations win", DeleteRange over the batch's own earlier
+// writes, delete-then-put, put-then-range — exhaustively at this depth.
+func batchLogSequences(depth int) [][]Op {
+	a, b, c := k(0x01), k(0x01, 0x00), k(0x02)
+	calls := []Op{{K: "put", Key: a, Val: k(0xaa)}, {K: "put", Key: b, Val: nil}, {K: "del", Key: a}, {K: "del", Key: b},
+		{K: "delrange", Key: a, End: b}, {K: "delrange", Key: a, End: c}}
+	stores := [][][]byte{{}, {a}, {b, c}, {a, b, c}}
+	var logs [][]Op
+	var rec func(prefix []Op)
+	rec = func(prefix []Op) {
+		if len(prefix) == depth {
+			logs = append(logs, append([]Op{}, prefix...))
+			return
+		}
+		for _, cl := range calls {
+			rec(append(prefix, cl))
+		}
+	}
+	rec(nil)
+	var all [][]Op
+	const perSeq = 54
+	for si, st := range stores {
+		for start := 0; start < len(logs); start += perSeq {
+			var ops []Op
+			for li, lg := range logs[start:min(start+perSeq, len(logs))] {
+				ops = append(ops, Op{K: "delrange", Key: nil, End: k(0xff)})
+				for _, key := range st {
+					ops = append(ops, Op{K: "put", Key: key, Val: k(byte(len(key)))})
+				}
+				idx := (li+si)%2 == 0
+				inner := append([]Op{}, lg...)
+				if idx {
+					inner = append(inner, Op{K: "get", Key: a}, Op{K: "has", Key: b}, Op{K: "scan"})
+				}
+				ops = append(ops, Op{K: "update", Idx: idx, Inner: inner})
+			}
+			all = append(all, withEnding(ops))
+		}
+	}
+	return all
+}
+
+// durabilitySequences: "apply batches with sync writes" — every write path of the interface, then a power
+// loss right after it (the pebble backends run on file systems that drop whatever was not synced), restart,
+// and the content is compared with db/memory (which keeps everything it acknowledged) and with the models.
+// Directed: each write path is once the LAST write before the power loss; then random mixes.
+func durabilitySequences(r *lib.RNG, random int) [][]Op {
+	pre := []Op{{K: "put", Key: k(0x01), Val: k(1)}, {K: "put", Key: k(0x02), Val: k(2)}, {K: "put", Key: k(0x02, 0x05), Val: nil},
+		{K: "put", Key: k(0xff), Val: k(3)}, {K: "crash"}}
+	paths := [][]Op{
+		{{K: "put", Key: k(0x03), Val: k(0xaa)}},
+		{{K: "del", Key: k(0x02)}},
+		{{K: "delrange", Key: k(0x02), End: k(0x03)}},
+		{{K: "newbatch"}, {K: "bput", Key: k(0x03), Val: k(0xaa)}, {K: "bdel", Key: k(0x01)}, {K: "bwrite"}},
+		{{K: "newbatch", U: true}, {K: "bdelrange", Key: k(0x02), End: k(0xff)}, {K: "bput", Key: k(0x04), Val: nil}, {K: "bwrite"}},
+		{{K: "newbatch", Idx: true}, {K: "bput", Key: k(0x03), Val: k(0xaa)}, {K: "bwrite"}},
+		{{K: "newbatch", Idx: true, U: true}, {K: "bdel", Key: k(0xff)}, {K: "bwrite"}},
+		{{K: "newbatch", Idx: true, Wrap: "sync"}, {K: "bput", Key: k(0x03), Val: k(0xaa)}, {K: "bwrite"}},
+		{{K: "newbatch", Idx: true, Wrap: "buffer"}, {K: "bput", Key: k(0x03), Val: k(0xaa)}, {K: "bdel", Key: k(0x02)}, {K: "bwrite"}},
+		{{K: "update", Idx: true, Inner: []Op{{K: "put", Key: k(0x03), Val: k(0xaa)}, {K: "del", Key: k(0x01)}}}},
+		{{K: "update", Idx: false, Inner: []Op{{K: "put", Key: k(0x03), Val: k(0xaa)}, {K: "delrange", Key: k(0x01), End: k(0x02, 0x06)}}}},
+		{{K: "update", Idx: true, Fail: true, Inner: []Op{{K: "put", Key: k(0x03), Val: k(0xaa)}}}},
+		{{K: "put", Key: k(0x03), Val: k(0xaa)}, {K: "flush"}, {K: "del", Key: k(0x03)}},
+	}
+	tail := []Op{{K: "crash"}, {K: "scan", Src: "db"}, {K: "psize", Key: nil}, {K: "crash"}, {K: "rscan", Src: "db", Key2: k(0xff, 0xff)},
+		{K: "put", Key: k(0x09), Val: k(9)}, {K: "reopen"}, {K: "scan", Src: "db"}, {K: "close"}}
+	fix := func(ops []Op) []Op { // handles are numbered per sequence
+		nb := -1
+		out := append([]Op{}, ops...)
+		for i := range out {
+			switch out[i].K {
+			case "newbatch":
+				nb++
+			case "bput", "bdel", "bdelrange", "bwrite":
+				out[i].H = nb
+			}
+		}
+		return out
+	}
+	var all [][]Op
+	for _, p := range paths {
+		all = append(all, fix(append(append(append([]Op{}, pre...), p...), tail...)))
+	}
+	keys := keyAlphabet[1:] // (not the empty key: Pebble v2 does not survive it, finding 3)
+	for i := 0; i < random; i++ {
+		ops := append([]Op{}, pre[:r.Range(0, 4)]...)
+		for j, n := 0, r.Range(2, 7); j < n; j++ {
+			p := append([]Op{}, lib.Pick(r, paths)...)
+			for x := range p {
+				if len(p[x].Key) > 0 && r.Bool() && p[x].K != "delrange" && p[x].K != "bdelrange" {
+					p[x].Key = lib.Pick(r, keys)
+				}
+			}
+			ops = append(ops, p...)
+			if r.Chance(2, 3) {
+				ops = append(ops, Op{K: "crash"}, Op{K: "scan", Src: "db"})
+			}
+		}
+		all = append(all, fix(append(ops, tail...)))
+	}
+	return all
+}
+
 const sigEmptyKeyCrash = "pebblev2-table-block-with-only-the-empty-key-crashes-process"
 
 func usesEmptyKey(ops []Op) bool {
@@ -467,7 +609,7 @@ func main() {
 	}
 	f := lib.ParseFlags()
 	res := lib.NewResult("op sequences of the db.KeyValueStore interface over a 16-key alphabet (empty key, keys extending keys, " +
-		"0xff-terminated / all-0xff prefixes, empty values) plus a large-data family, run on db/memory, db/pebble, db/pebblev2 " +
+		"0xff-terminated / all-0xff prefixes, empty values) plus large-data, all-batch-logs, BufferBatch and power-loss families, run on db/memory, db/pebble, db/pebblev2 " +
 		"(compared with each other) and on the Lean Mem/Peb/Spec models; non-trivial = distinct sequence with >= 8 ops that uses " +
 		"a batch, snapshot or iterator")
 	// lib.NewRNG(s) and lib.NewRNG(s+1) are the same SplitMix stream shifted by one: scramble the seed
@@ -518,7 +660,7 @@ func main() {
 	f5Family, f5Left := 0, 0
 	gaveUp := false
 	runOne := func(ops []Op, label string) {
-		if hangs.Load() > 40 {
+		if hangs.Load() > 12 {
 			// (the re-entrant Get on db/memory accounts for a handful) calls keep hanging: the violations
 			// found so far are reported, the rest of the run would only wait for deadlines
 			if !gaveUp {
@@ -530,7 +672,7 @@ func main() {
 		if emptyKeyCrash && usesEmptyKey(ops) {
 			var kept []Op
 			for _, o := range ops {
-				if o.K != "reopen" && o.K != "flush" {
+				if o.K != "reopen" && o.K != "flush" && o.K != "crash" {
 					kept = append(kept, o)
 				}
 			}
@@ -600,6 +742,17 @@ func main() {
 	for _, ops := range reentrantSequences() {
 		runOne(ops, "re-entrant-callbacks")
 	}
+	for _, ops := range bufferSequences() {
+		runOne(ops, "buffer-batch")
+	}
+	for _, ops := range batchLogSequences(f.Scale(3, 4)) {
+		runOne(ops, "all-batch-logs")
+	}
+	rn.crashable = true
+	for _, ops := range durabilitySequences(r.Fork(3_000_000), f.Scale(30, 600)) {
+		runOne(ops, "durability-power-loss-after-each-write-path")
+	}
+	rn.crashable = false
 	for _, ops := range boundsSequences() {
 		runOne(ops, "all-bounds")
 	}
@@ -623,7 +776,7 @@ func main() {
 		rr := r.Fork(uint64(i))
 		rn.disk = i%10 == 0
 		allowF5 := i%7 == 3
-		ops := withEnding(genSequence(rr, rr.Range(8, 70), allowF5, true))
+		ops := withEnding(genSequence(rr, rr.Range(8, 70), allowF5, cfg.CbUnlocked))
 		label := "random"
 		if allowF5 {
 			label = "random+store-changes-under-pending-deleterange"
@@ -635,6 +788,11 @@ func main() {
 		res.Fatalf("the F5 family is not effective: only %d of %d sequences left f5Free", f5Left, f5Family)
 	}
 	res.HitN("f5-family:left-f5Free", f5Left)
+	res.HitN("listener:OnIO-calls", int(listenerIO.Load()))
+	res.HitN("listener:OnCommit-calls", int(listenerCommit.Load()))
+	if listenerIO.Load() == 0 || listenerCommit.Load() == 0 {
+		res.Fatalf("the event listener installed with WithListener was never called (%d IO, %d commit)", listenerIO.Load(), listenerCommit.Load())
+	}
 
 	// E. concurrency: quick = smoke in process; thorough = child process built with -race
 	if f.Thorough() {
